@@ -282,6 +282,12 @@ func (r *Run) account(ctx *hx.Ctx, c *Case) {
 			ctx.Cov.Count("nodes-with-finality")
 		}
 	}
+	if r.TieSwitches > 0 {
+		ctx.Cov.Count("runs-outside-fork-choice-premise(tie-switch)")
+		if f := r.conflictIgnoringPremise(c.Script); f {
+			ctx.Cov.Count("engine-level-conflicting-finality-outside-premise")
+		}
+	}
 }
 
 // MaxFinalized is the highest finalized block number any node reached during the run.
@@ -355,4 +361,17 @@ func (r *Run) finalizersOnOneChain(n *Node) bool {
 		}
 	}
 	return true
+}
+
+// conflictIgnoringPremise: do two nodes hold conflicting finalized checkpoints at the end of the run (reported as
+// coverage only for runs outside the fork-choice premise, e.g. the scripted F4 history).
+func (r *Run) conflictIgnoringPremise(sc *Script) bool {
+	for i := range r.Nodes {
+		for j := i + 1; j < len(r.Nodes); j++ {
+			if r.Sim.Conflict(r.Nodes[i].Engine.Finalized(), r.Nodes[j].Engine.Finalized()) {
+				return true
+			}
+		}
+	}
+	return false
 }
